@@ -111,7 +111,9 @@ func c13ObjectProgram(s Src) (string, *C13Expect) {
 		// long names that share their first 16 bytes and have equal length
 		"customer_account_name1", "customer_account_name2", "\u0997\u09cd\u09b0\u09be\u09b9\u0995\u09c7\u09b0_\u09a8\u09be\u09ae", "\u0997\u09cd\u09b0\u09be\u09b9\u0995\u09c7\u09b0_\u09a6\u09be\u09ae",
 		// two spellings of one canonically equivalent name (U+09CB vs U+09C7 U+09BE)
-		"\u099b\u09cb\u099f", "\u099b\u09c7\u09be\u099f", "k2", "k10"}
+		"\u099b\u09cb\u099f", "\u099b\u09c7\u09be\u099f", "k2", "k10",
+		// the same name with an ASCII and a Bangla digit
+		"room1", "room\u09e7", "\u0998\u09b01", "\u0998\u09b0\u09e7"}
 	drawKeys := func(n int) []string {
 		p := append([]string(nil), pool...)
 		for i := 0; i < n; i++ {
@@ -260,8 +262,8 @@ func c13DiagProgram(s Src) (string, *C13Expect) {
 	var ls []string
 	stems := []string{"total", "count", "name", "value"}
 	st := Pick(s, "stem", stems)
-	variants := []string{st + "1", st + "2", st + "s", st + "a", st[:len(st)-1], "x" + st, st + "_", st + "\u0995"}
-	nv := s.Int("nvars", 2, 6)
+	variants := []string{st + "1", st + "2", strings.ToUpper(st), strings.ToUpper(st[:1]) + st[1:], st + "s", st + "a", st[:len(st)-1], "x" + st, st + "_", st + "\u0995"}
+	nv := s.Int("nvars", 2, 8)
 	for i := 0; i < nv; i++ {
 		ls = append(ls, fmt.Sprintf("%s %s = %d;", KwVar, variants[i], i+1))
 	}
